@@ -193,6 +193,66 @@ fn roundtrip(filter: &Filter, mirror: &Expr) -> Result<(), String> {
     Ok(())
 }
 
+fn and2_shape() -> Shape {
+    Shape::And(Box::new(Shape::Leaf), Box::new(Shape::Leaf))
+}
+
+/// A value containing LF or NUL cannot be carried by a request line. Each command form may refuse (panic /
+/// error while building) - then nothing is sent and nothing is claimed; whatever IS sent must still be one
+/// line whose filter argument denotes the filter that was built.
+fn check_unencodable(value: &str, acc: &mut Acc, verbose: bool) {
+    type Form = (&'static str, Box<dyn Fn(Filter) -> mpd_client::protocol::Command>, usize, usize);
+    let forms: Vec<Form> = vec![
+        ("find", Box::new(|f| Find::new(f).command()), 0, 1),
+        ("count", Box::new(|f| Count::new(f).command()), 0, 1),
+        ("list", Box::new(|f| List::new(Tag::Album).filter(f).command()), 1, 2),
+        ("count-group", Box::new(|f| CountGrouped::new(Tag::Album).filter(f).command()), 0, 3),
+    ];
+    for (leafname, filter, mirror) in [
+        ("Filter::tag", Filter::tag(Tag::Artist, value), Expr::Tag { tag: b"Artist".to_vec(), op: "==".into(), value: value.as_bytes().to_vec() }),
+        (
+            "x AND Filter::new(contains)",
+            Filter::tag(Tag::Album, "x").and(Filter::new(Tag::Artist, Operator::Contain, value)),
+            Expr::And(vec![Expr::Tag { tag: b"Album".to_vec(), op: "==".into(), value: b"x".to_vec() }, Expr::Tag { tag: b"Artist".to_vec(), op: "contains".into(), value: value.as_bytes().to_vec() }]),
+        ),
+    ] {
+        for (form, make, pos, nargs) in &forms {
+            acc.evaluations += 1;
+            acc.nontrivial += 1;
+            acc.transitions += 1;
+            let f = filter.clone();
+            let w = match catch(|| wire_of_command(make(f))) {
+                Err(_) => {
+                    if verbose {
+                        println!("  [{form}] {leafname}: refused (nothing is sent)");
+                    }
+                    continue;
+                }
+                Ok(w) => w,
+            };
+            let problem = if w.last() != Some(&b'\n') || w.iter().filter(|&&b| b == b'\n').count() != 1 {
+                Some(format!("request is not one line: {:?}", show_bytes(&w)))
+            } else {
+                match tokenize(&w[..w.len() - 1]) {
+                    Err(e) => Some(format!("tokenizer rejects {:?}: {e}", show_bytes(&w))),
+                    Ok(req) if req.args.len() != *nargs => Some(format!("{} arguments instead of {nargs} in {:?} (the filter was left out or split)", req.args.len(), show_bytes(&w))),
+                    Ok(req) => match parse(&req.args[*pos]) {
+                        Err(e) => Some(format!("MPD's filter parser rejects {:?}: {e}", show_bytes(&req.args[*pos]))),
+                        Ok(p) if p.normalize() != mirror.normalize() => Some(format!("server reads {} from {:?}", p.normalize().show(), show_bytes(&w))),
+                        Ok(_) => None,
+                    },
+                }
+            };
+            if verbose {
+                println!("  [{form}] {leafname}: sent {:?}: {:?}", show_bytes(&w), problem);
+            }
+            if let Some(why) = problem {
+                acc.viol.push(Violation::new("C11/unencodable-value-sent-altered", format!("[{form}] {leafname} with the value {:?} (not representable in a request line): {why}", show_bytes(value.as_bytes())), json!({"unencodable_value_hex": hex(value.as_bytes())})));
+            }
+        }
+    }
+}
+
 fn signature(shape: &Shape, leaves: &[LeafSpec]) -> String {
     let has_quote = leaves.iter().any(|l| l.value.contains('"'));
     let has_bs = leaves.iter().any(|l| l.value.contains('\\'));
@@ -340,6 +400,53 @@ pub fn run(tier: Tier) -> i32 {
         })
         .reduce(Acc::default, Acc::merge);
 
+    // (3b) on a single leaf every value under every operator AND through Filter::tag (round 6: a convenience
+    // constructor that "normalises" its value)
+    let acc3b = values
+        .par_chunks(512)
+        .map(|chunk| {
+            let mut acc = Acc::default();
+            for v in chunk {
+                for k in (0..5).map(LeafKind::Op).chain([LeafKind::TagEq]) {
+                    check(&Shape::Leaf, &[LeafSpec { tag: 1, kind: k, value: v.clone() }], &mut acc, false);
+                }
+            }
+            acc
+        })
+        .reduce(Acc::default, Acc::merge);
+    // (3c) long values: every length 40..=70, around 128 / 256 / 512 / 1024 and 2000, with 0..=3 backslashes
+    // or single quotes spread over the value (round 6: an inline buffer sized for the wrong growth factor)
+    let lens: Vec<usize> = (40..=70).chain(120..=136).chain(250..=260).chain([510, 511, 512, 513, 1000, 1023, 1024, 1025, 2000]).collect(); // (MPD's filter parser holds a quoted value in a 4 KiB buffer: longer values are outside the domain)
+    let acc3c = lens
+        .par_iter()
+        .map(|&len| {
+            let mut acc = Acc::default();
+            for special in ["\\", "'", " ", "\u{e9}"] {
+                for k in 0..=3usize {
+                    let mut v: Vec<&str> = vec!["a"; len - k * special.len().min(len / 4)];
+                    for j in 0..k {
+                        // first, middle, last
+                        let at = [0, v.len() / 2, v.len()][j];
+                        v.insert(at, special);
+                    }
+                    let value: String = v.concat();
+                    for kind in [LeafKind::Op(0), LeafKind::Op(2), LeafKind::TagEq] {
+                        check(&Shape::Leaf, &[LeafSpec { tag: 0, kind, value: value.clone() }], &mut acc, false);
+                    }
+                    check(&and2_shape(), &[LeafSpec { tag: 0, kind: LeafKind::Op(0), value: value.clone() }, LeafSpec { tag: 1, kind: LeafKind::TagEq, value: value.clone() }], &mut acc, false);
+                }
+            }
+            acc
+        })
+        .reduce(Acc::default, Acc::merge);
+    // (3d) values no request line can carry (LF, NUL): refusing to build the request is fine, sending a
+    // request that means something else (e.g. without the filter) is not
+    let mut acc3d = Acc::default();
+    for v in strings_over(&["a", "\n", "\0", " "], 3).into_iter().filter(|v| v.contains('\n') || v.contains('\0')) {
+        check_unencodable(&v, &mut acc3d, false);
+    }
+    let acc3 = acc3.merge(acc3b).merge(acc3c).merge(acc3d);
+
     // (4) two special values at once (all pairs of short values) on the two-leaf AND
     let short = strings_over(VALUE_SIGMA, 1);
     let and2 = Shape::And(Box::new(Shape::Leaf), Box::new(Shape::Leaf));
@@ -441,7 +548,7 @@ pub fn run(tier: Tier) -> i32 {
     cov.evaluations = acc.evaluations;
     cov.distinct_nontrivial = acc.nontrivial;
     cov.rule = format!(
-        "{} tree shapes (<=3 leaves, nesting <=3, NOT via negate() and via `!`, AND in both association orders) x every assignment of the 8 leaf kinds (5 operators, Filter::tag, tag_exists, tag_absent) with rotating tags; every tag x kind on a single leaf; at one leaf at a time every value of length <= {} over {:?} ({} values); all pairs of single-symbol values on a two-leaf AND; every tag name of the protocol x every operator; 48 control / combining / format / separator / private-use characters at the start, inside and at the end of a value x every operator; every sequence of <= 3 negate / ! / and / clone steps applied to a filter that has already been rendered, rendering after each step; each rendered through find, count, list…filter and count…group; non-trivial = trees with several leaves or a value containing a non-alphanumeric byte",
+        "{} tree shapes (<=3 leaves, nesting <=3, NOT via negate() and via `!`, AND in both association orders) x every assignment of the 8 leaf kinds (5 operators, Filter::tag, tag_exists, tag_absent) with rotating tags; every tag x kind on a single leaf; at one leaf at a time every value of length <= {} over {:?} ({} values), on a single leaf under every operator and through Filter::tag; values of every length 40..=70, 120..=136, 250..=260 and around 512 / 1024 / 2000 with 0..=3 backslashes / quotes / blanks / non-ASCII characters; values with LF / NUL (refused, or sent unaltered); all pairs of single-symbol values on a two-leaf AND; every tag name of the protocol x every operator; 48 control / combining / format / separator / private-use characters at the start, inside and at the end of a value x every operator; every sequence of <= 3 negate / ! / and / clone steps applied to a filter that has already been rendered, rendering after each step; each rendered through find, count, list…filter and count…group; non-trivial = trees with several leaves or a value containing a non-alphanumeric byte",
         all_shapes.len(),
         tier.pick(4, 5),
         VALUE_SIGMA,
@@ -462,6 +569,13 @@ pub fn run(tier: Tier) -> i32 {
 }
 
 pub fn replay(case: &Value) -> i32 {
+    if let Some(h) = case.get("unencodable_value_hex").and_then(|v| v.as_str()) {
+        let v = String::from_utf8_lossy(&unhex(h)).into_owned();
+        println!("replay C11: value {:?} that no request line can carry", show_bytes(v.as_bytes()));
+        let mut acc = Acc::default();
+        check_unencodable(&v, &mut acc, true);
+        return if acc.viol.is_empty() { println!("replay: property holds on this case"); 0 } else { println!("replay: VIOLATION"); 1 };
+    }
     if let Some(h) = case.get("special_value_hex").and_then(|v| v.as_str()) {
         let v = String::from_utf8_lossy(&unhex(h)).into_owned();
         println!("replay C11: value {:?} under every operator", show_bytes(v.as_bytes()));
